@@ -120,7 +120,9 @@ fn run_case(c: &Case) -> Outcome {
         }
         if c.position == Position::AfterTraffic {
             sender.send(memrelay::encode_c2r_datagram(target_id.as_bytes(), &probe(1), None)).await;
-            match receives(&mut target, 1, PROBE_WAIT).await {
+            // traffic goes to the endpoint's newest connection (held in `older` after the swap)
+            let active = if c.revoke_older { older.as_mut().expect("sibling") } else { &mut target };
+            match receives(active, 1, PROBE_WAIT).await {
                 Ok(true) => {}
                 _ => { eprintln!("C08 harness: pre-revocation traffic not delivered"); std::process::exit(2) }
             }
